@@ -142,7 +142,8 @@ def scriptSkip (tcs : List TC) : Int := match tcs with
 /-- `BashScriptExecutor::execute_all` (Cram, src/executors/bash_script_executor.rs:77-160): all
     test cases run in ONE bash process; `script` is the status of that process, `outs` the
     per-divider outputs found in its stdout (fewer than test cases if a command left the shell).
-    Order of the decisions as in the source: script-level skip code, timeout, unknown; then a
+    Order of the decisions as in the source: script-level skip code, timeout (unless a parsed output carries
+    the skip code), unknown; then a
     parsed output carrying the (shared) skip code skips the document; then the count check.
     `none` = execution error (the run exits with 1). -/
 def execScript (tcs : List TC) (script : Status) (outs : List Out) : Option ExecResult :=
@@ -153,7 +154,11 @@ def execScript (tcs : List TC) (script : Status) (outs : List Out) : Option Exec
     | none => if outs.length ≠ tcs.length then none else some (.ok outs)
   match script with
   | .code c => if c = skip then some (.skipped 0) else afterStatus
-  | .timeout => some (.timeout true 0 [⟨.timeout, false, false⟩])
+  -- since fix 03b50b5 the dividers printed before the time ran out are looked at: a skip code among them wins
+  | .timeout =>
+    match outs.findIdx? (fun o => o.status = .code skip) with
+    | some i => some (.skipped i)
+    | none => some (.timeout true 0 [⟨.timeout, false, false⟩])
   | .unknown => none
   | _ => afterStatus
 
